@@ -164,10 +164,13 @@ class _ToyDecoder(nn.Module):
         super().__init__()
         self.kind = kind
         self.vocab_size = vocab_size
+        self.drop = nn.Dropout(0.5)       # kind 3: a model with dropout (random in training mode, the identity in evaluation mode)
 
     def forward(self, h):
         # h: [B, 1] (or [1, B, 1]) -> scores [B, V], a fixed pseudo-random function of the state
         v = torch.arange(self.vocab_size, dtype=torch.float64)
+        if self.kind == 3:
+            return self.drop(-(torch.remainder(h * 31.0 + v * 17.0 + 7.0, 13.0) / 4.0 + 0.1))
         if self.kind == 0:
             return -(torch.remainder(h * 31.0 + v * 17.0 + 7.0, 13.0) / 4.0 + 0.1)
         if self.kind == 1:
@@ -182,7 +185,7 @@ class ToyLM(nn.Module):
         for i, c in enumerate(letters):
             self.vocab[c] = i + 1
         self._unused_prefix_len = 1
-        self.model = _ToyModel([5.0, 7.0, 5.0][kind])
+        self.model = _ToyModel([5.0, 7.0, 5.0, 5.0][kind])
         self.decoder = _ToyDecoder(kind, len(letters) + 1)
 
 
